@@ -320,7 +320,7 @@ impl<'a> Run<'a> {
                         }
                     }
                 }
-                "s" | "b" | "tok" => self.feed(ctx, idx, op, ob),
+                "s" | "b" | "tok" | "tokb" => self.feed(ctx, idx, op, ob),
                 "reset" => {
                     let i = op["i"].as_i64().unwrap();
                     let prop = ctx.prop.clone();
@@ -576,11 +576,15 @@ impl<'a> Run<'a> {
                 lits.push(x.to_bits() as i64);
                 lits.push(-9);
                 l.tainted = true;
-                inrec = if Ind::has_scalar(&l.cfg.kind) { InRec::S(x) } else { InRec::B(Bar::one(x)) };
-                raw = if Ind::has_scalar(&l.cfg.kind) {
+                let scalar = Ind::has_scalar(&l.cfg.kind) && name != "tokb";
+                inrec = if scalar { InRec::S(x) } else { InRec::B(Bar::one(x)) };
+                raw = if scalar {
                     catch_unwind(AssertUnwindSafe(|| l.ind.next_s(x))).map_err(|_| ())
                 } else {
-                    let bar = Bar::one(x);
+                    let mut bar = Bar::one(x);
+                    if matches!(l.cfg.kind.as_str(), "MFI" | "OBV") {
+                        bar.v = x; // the kinds that read volume get the value there too (DataItem accepts an infinite volume)
+                    }
                     catch_unwind(AssertUnwindSafe(|| Some(l.ind.next_b(&bar)))).map_err(|_| ())
                 };
             }
